@@ -1,5 +1,6 @@
 import QProofs.GraphBasics
 import QProofs.GenInstsOK
+import QProofs.PipelineWF
 /-!
 # C01 — quantize() returns a well-formed model or raises
 
@@ -55,5 +56,13 @@ theorem modify_wf (pt : PTable) (m m' : Model) (reqs : List TReq)
     (hreq : ∀ r ∈ reqs, GenInstsOK.ReqOK pt m r)
     (h : Perform.modify pt m reqs = .ok m') : WF.modelOK m' = true :=
   GenInstsOK.modify_ok pt m m' reqs hwf hnames hreq h
+
+/-- **C01 (structural part), end to end**: for every model in converter normal form (`NF`,
+    QProofs/PipelineWF.lean), every recipe state, every regex semantics and every statistics,
+    `quantize()` raises or returns a well-formed graph -/
+theorem quantize_wf (rx : String → String → Bool) (env : Mat.Env) (st : Recipe.State) (qsvs : Option Mat.Qsvs)
+    (m' : Model) (tbl : List Mat.Param) (hnf : PipelineWF.NF env st)
+    (h : Pipeline.quantizePure rx env st qsvs = .ok (m', tbl)) : WF.modelOK m' = true :=
+  PipelineWF.quantizePure_wf rx env st qsvs m' tbl hnf h
 
 end C01
